@@ -4,8 +4,8 @@
 W=${VERIF_SCRATCH:-/tmp/mw}
 [ -d $W ] || git -C /repo worktree add -q --detach $W HEAD
 for p in /verif/seeded/benign/B*.diff; do
-  (cd $W && git checkout -q -- . && git clean -fdq && git checkout -q --detach $(git -C /repo rev-parse HEAD) && git apply $p) || { echo "$p does not apply"; continue; }
+  (cd $W && git reset -q --hard && git clean -fdq && git checkout -q --detach $(git -C /repo rev-parse HEAD) && { git apply $p 2>/dev/null || git apply --3way $p; } && git reset -q) || { echo "$p does not apply"; continue; }
   echo "### $(basename $p)"
   (cd /verif && tools/ben_run.sh $W "$@")
 done
-(cd $W && git checkout -q -- . && git clean -fdq)
+(cd $W && git reset -q --hard && git clean -fdq)
